@@ -2,11 +2,17 @@
    Statements only.  Proved: the self-loop rule after the repair F9, totality, and — with kernel-computed
    witnesses — that on models with a cycle that are not well-founded the verdict of the transcribed
    algorithm depends on the depth-first start order and that a relation reaching no terminal type is
-   accepted (known finding K-WG-cycles).  The equivalence "accepted iff well-founded" itself is not proved;
-   on every run the verdict under each explicit start order is compared with well-foundedness computed on
-   the model (run/lib/graphspec.well_founded), and any disagreement outside the finding's region is reported. *)
+   accepted (known finding K-WG-cycles).  Proved (3-5): THE EQUIVALENCE ON GRAPHS WITHOUT CYCLES, for every
+   start order — weight assignment succeeds exactly when the specification accepts every node: a relation or
+   operator has an operand edge, every edge leads to a type, a wildcard or an accepted node whose weight map is
+   not empty ("can reach a terminal type"), and an intersection keeps a type common to all operands
+   (Spec/GraphWeights.accepts; soundness and completeness in Proofs/DagWeights.v, with AssignWeights' own fuel).
+   The decidable hypotheses and the acceptance predicate are evaluated by the extracted model on every
+   generated model and compared with the implementation's verdict under each start order.  NOT proved: the
+   equivalence on graphs with cycles (where it is refuted, witnesses 2); there the verdict under each explicit
+   start order is compared with well-foundedness computed on the model (run/lib/graphspec.well_founded). *)
 From Verif Require Import Base.Str Base.Outcome Model.Ast Model.Printer Model.WGraph Model.WWeights
-  Proofs.WeightsProofs Proofs.Witnesses.
+  Spec.GraphWeights Proofs.WeightsProofs Proofs.Witnesses Proofs.GraphPrims Proofs.DagWeights Proofs.DagCheck.
 
 (* 1. a relation defined as itself (`define a: a`): the computed self edge is a model cycle, for every graph,
       path and fuel — it is never resolved as a tuple cycle (repair F9) *)
@@ -32,3 +38,25 @@ Qed.
 Theorem C05_no_terminal_type_refuted :
   exists g, build_weighted None m_empty = Ok g /\ n_weights (node_of g (lit "doc#c")) = [].
 Proof. exact m_empty_accepted. Qed.
+
+(* 3. graphs without cycles, any start order: accepted iff the specification accepts every start node.
+      The fuel hypothesis says that AssignWeights' own fuel (2 * #nodes + 2) is enough for the ranks used. *)
+Theorem C05_acyclic_graph_accepted_iff : forall g0 rank order,
+  ranked_by g0 rank -> terminals_not_placeholders g0 -> unweighted g0 ->
+  (forall x, In x order -> (2 * rank x + 1 <= 2 * length (g_nodes g0) + 2)%nat) ->
+  ((exists g', assign_weights order g0 = Ok g') <->
+   (forall x, In x order -> is_terminal (n_type (node_of g0 x)) = true \/ acc g0 rank x = true)).
+Proof. exact dag_accepts_iff. Qed.
+
+(* 4. from the model, every hypothesis discharged by evaluation *)
+Theorem C05_acyclic_model_accepted_iff : forall m g o,
+  wbuild m = Ok g -> dag_check g = true -> fuel_check g = true ->
+  (is_ok (build_weighted o m) = true <-> forallb (spec_accepts g) (order_used o g) = true).
+Proof. exact acyclic_model_accepts. Qed.
+
+(* 5. non-vacuity: the example model is in the domain, the specification accepts all its nodes, and it is accepted *)
+Theorem C05_acyclic_domain_inhabited :
+  in_dag_domain m_good = true /\
+  match wbuild m_good with Ok g => fuel_check g && forallb (spec_accepts g) (default_order g) | _ => false end = true /\
+  is_ok (build_weighted None m_good) = true.
+Proof. split; [apply m_good_in_domain|]. split; [exact m_good_accepted_by_spec|apply m_good_in_domain]. Qed.
